@@ -177,3 +177,40 @@ Proof.
     rewrite subN_tail1 by (autorewrite with len; rewrite ?chunk_header_len; change (N.of_nat 4) with 4; lia).
     symmetry. apply B1.
 Qed.
+
+(* ---------- the MSB-first reading of "burst of 32 contiguous bits" is NOT covered: a witness ---------- *)
+Lemma within32b_sound e p : within32b e p = true -> within32 e.
+Proof.
+  intros H. exists p. intros i Hi. unfold within32b in H. rewrite forallb_forall in H.
+  assert (Hl : (i < length e)%nat).
+  { destruct (Nat.lt_ge_cases i (length e)); [assumption|]. rewrite nth_overflow in Hi by assumption. discriminate. }
+  specialize (H i). rewrite Hi in H. cbn [implb] in H.
+  assert (In i (seq 0 (length e))) by (apply in_seq; lia).
+  apply H in H0. apply andb_true_iff in H0. destruct H0 as [A B].
+  apply Nat.leb_le in A. apply Nat.ltb_lt in B. lia.
+Qed.
+
+(* an accepted chunk with payload 01 02 .. 08, and the same chunk with payload bytes 0..4 xor-ed with
+   62 95 e3 fd 80: in MSB-first numbering the changed bits are 161..192, a window of exactly 32 contiguous bits
+   (in serial numbering they span 40 positions); the error polynomial is a multiple of the generator *)
+Definition msb_witness : list N :=
+  [236;40;255;135; 2;0;0;0; 3;0; 0; 1; 5;0; 8;0; 64;144;53;223; 1;2;3;4;5;6;7;8; 126;224;118;185].
+Definition msb_witness' : list N :=
+  [236;40;255;135; 2;0;0;0; 3;0; 0; 1; 5;0; 8;0; 64;144;53;223; 99;151;224;249;133;6;7;8; 126;224;118;185].
+
+Theorem chunk_burst32_msb_first_refuted_lemma :
+  exists devices m l l' c c',
+    bytes l /\ bytes l' /\ chunk_decode devices m l = Ok c /\ length l' = length l /\ l' <> l /\
+    burst32_msb l l' /\ chunk_decode devices m l' = Ok c' /\ c_payload c' <> c_payload c.
+Proof.
+  exists [2281646316], Checked, msb_witness, msb_witness'.
+  eexists. eexists.
+  split; [apply bytesb_spec; vm_compute; reflexivity|].
+  split; [apply bytesb_spec; vm_compute; reflexivity|].
+  split; [vm_compute; reflexivity|].
+  split; [reflexivity|].
+  split; [unfold msb_witness, msb_witness'; intros H; discriminate H|].
+  split; [apply (within32b_sound _ 161); vm_compute; reflexivity|].
+  split; [vm_compute; reflexivity|].
+  cbn [c_payload]. intros H. discriminate H.
+Qed.
